@@ -7,6 +7,7 @@ from ..flow import call_name, dotted, norm, writes_in
 from ..index import AnalysisError, walk_local
 from ..lib import cfg_of, defs_of, live, nodes_with, return_nodes, undominated, witness
 from ..tags import Tagger
+from .. import shape
 
 QTO = "pint.facets.plain.qto"
 PQ = "pint.facets.plain.quantity"
@@ -28,92 +29,211 @@ EXPLANATION += ' Also decided (rules added after the second round of seeded chan
 
 
 
+# ---------------------------------------------------------------- role-based helpers (no names of locals, no polarity)
+INPUT_MAGNITUDE = ("quantity.magnitude", "quantity._magnitude", "quantity.m")
+
+
+def _is(pattern: str, e: ast.AST, fn: ast.AST = None) -> bool:
+    """`e` matches the pattern (shape.match syntax) as written or, inside `fn`, after resolving local temporaries"""
+    if shape.match(pattern, e) is not None:
+        return True
+    return fn is not None and shape.match(pattern, shape.resolve(e, fn)) is not None
+
+
+def _of_input_magnitude(defs, e) -> bool:
+    """`e` derives from the magnitude of the *input* quantity (its nominal value included) and not from a converted one"""
+    roots = defs.roots(e)
+    return any(r == m or r.startswith(m + ".") for r in roots for m in INPUT_MAGNITUDE) and "call:to" not in roots
+
+
+def _unchanged_conditions(defs):
+    """The conditions under which to_compact must hand back its argument: [(label used in the report key, predicate on an
+    atomic condition)].  The local that holds the (nominal) magnitude is recognised by what it derives from."""
+    def zero(a):
+        if not (isinstance(a, ast.Compare) and len(a.ops) == 1 and isinstance(a.ops[0], ast.Eq)):
+            return False
+        sides = [a.left, a.comparators[0]]
+        const = [x for x in sides if isinstance(x, ast.Constant) and x.value == 0 and not isinstance(x.value, bool)]
+        return len(const) == 1 and any(_of_input_magnitude(defs, x) for x in sides if x not in const)
+
+    def test(name):
+        return lambda a: isinstance(a, ast.Call) and norm(a.func) in (f"math.{name}", name) and len(a.args) == 1 and not a.keywords and _of_input_magnitude(defs, a.args[0])
+    return [("quantity.unitless", lambda a: norm(a) == "quantity.unitless"), ("qm == 0", zero), ("math.isnan(qm)", test("isnan")), ("math.isinf(qm)", test("isinf"))]
+
+
+def _origin(fi, e, fn, depth: int = 3):
+    """(defining expression, function it lives in) of a value: local names are followed to their dominating definition
+    and `helper(...)[k]` into the k-th element of the tuple returned by a module-level helper with a single return."""
+    e = shape.unalias(e, fn)
+    if depth > 0 and isinstance(e, ast.Subscript) and isinstance(e.slice, ast.Constant) and isinstance(e.slice.value, int) and isinstance(e.value, ast.Call) and isinstance(e.value.func, ast.Name):
+        g = fi.module.functions.get(e.value.func.id)
+        rets = shape.returns_of(g.node) if g is not None and isinstance(g.node, ast.FunctionDef) else []
+        if len(rets) == 1:
+            rv = shape.unalias(rets[0].value, g.node)
+            if isinstance(rv, ast.Tuple) and e.slice.value < len(rv.elts):
+                return _origin(g, rv.elts[e.slice.value], g.node, depth - 1)
+    return e, fn
+
+
+def _column(lc, fn):
+    """For `[row[k] for row in T]` / `[x_k for x_0, x_1 in T]`: (text of T with temporaries resolved, k); else None."""
+    if not (isinstance(lc, ast.ListComp) and len(lc.generators) == 1 and not lc.generators[0].ifs):
+        return None
+    g = lc.generators[0]
+    table = shape.rnorm(g.iter, fn)
+    if isinstance(g.target, ast.Name) and isinstance(lc.elt, ast.Subscript) and norm(lc.elt.value) == g.target.id and isinstance(lc.elt.slice, ast.Constant):
+        return table, lc.elt.slice.value
+    if isinstance(g.target, ast.Tuple) and isinstance(lc.elt, ast.Name):
+        ks = [i for i, t in enumerate(g.target.elts) if isinstance(t, ast.Name) and t.id == lc.elt.id]
+        if len(ks) == 1:
+            return table, ks[0]
+    return None
+
+
 def to_compact_rule(ck, ix):
     """to_compact: unchanged for unitless/zero/NaN/inf, prefix chosen from the magnitude in the unprefixed unit (nominal
     value for uncertain magnitudes), only one unit renamed with the prefix."""
     f = ix.func(QTO, "to_compact")
+    fn = f.node
     cfg, defs = cfg_of(f), defs_of(f)
-    conv = nodes_with(cfg, lambda x: isinstance(x, ast.Call) and call_name(x) == "to" and norm(x.func.value) == "quantity")
-    guards = [n.id for n in cfg.nodes if n.kind == "test" and "quantity.unitless" in norm(n.ast)]
-    ck.check(bool(guards), "G-DOM", "to_compact|unchanged-guard-present", f.loc(), "unitless/zero/NaN/inf guard present", "the unitless/zero/NaN/inf guard of to_compact is gone")
-    for g in guards:
-        s = norm(cfg.nodes[g].ast)
-        for part in ("quantity.unitless", "qm == 0", "math.isnan(qm)", "math.isinf(qm)"):
-            ck.check(part in s, "G-DOM", f"to_compact|unchanged-for|{part}", f.loc(cfg.nodes[g].ast), f"`{part}` returns the input unchanged", f"to_compact no longer returns its input unchanged when `{part}`")
-        succ = [v for (v, lab) in cfg.succ[g] if lab == "t"]
-        ck.check(all(isinstance(cfg.nodes[v].ast, ast.Return) and norm(cfg.nodes[v].ast.value) == "quantity" for v in succ), "G-DOM", "to_compact|guard-returns-input", f.loc(cfg.nodes[g].ast), "guard returns the input object", "the guard does not return the input unchanged")
-    for c in live(cfg, conv):
-        p = undominated(cfg, [c], guards)
-        ck.check(p is None, "G-DOM", "to_compact|conversion-after-guards", f.loc(cfg.nodes[c].ast), "conversions happen only after the guards", "a conversion happens before the unitless/zero/NaN/inf guard", witness(cfg, p))
-    # magnitude used for the prefix derives from the converted quantity
+    # candidates: every conversion of the input.  A conversion may only happen where each of the four conditions is known
+    # to be false (whatever the shape of the test: one `or`, four guard clauses, a flipped if/else), and every exit taken
+    # while one of them may hold returns the input object itself
+    conv = [c for c in walk_local(fn) if isinstance(c, ast.Call) and call_name(c) == "to" and norm(c.func.value) == "quantity"]
+    ck.floor("G-DOM", len(conv), 1, "conversions of the input quantity in to_compact")
+    conds = _unchanged_conditions(defs)
+    tested = lambda pred: bool(shape.guard_edges(cfg, pred, False) or shape.guard_edges(cfg, pred, True))
+    ck.check(tested(conds[0][1]), "G-DOM", "to_compact|unchanged-guard-present", f.loc(), "unitless/zero/NaN/inf guard present", "the unitless/zero/NaN/inf guard of to_compact is gone")
+    for label, pred in conds:
+        bad = [c for c in conv if not shape.holds_at(c, fn, pred, False)]
+        ck.check(not bad, "G-DOM", f"to_compact|unchanged-for|{label}", f.loc(bad[0]) if bad else f.loc(), f"`{label}` returns the input unchanged", f"to_compact no longer returns its input unchanged when `{label}`")
+    passed_guards = lambda node: all(shape.holds_at(node, fn, pred, False) for _, pred in conds)
+    early = [r for r in shape.returns_of(fn) if not passed_guards(r)]
+    for r in early:
+        ck.check(shape.rnorm(r.value, fn) == "quantity", "G-DOM", "to_compact|guard-returns-input", f.loc(r), "guard returns the input object", "the guard does not return the input unchanged")
+    for c in conv:
+        ck.check(passed_guards(c), "G-DOM", "to_compact|conversion-after-guards", f.loc(c), "conversions happen only after the guards", "a conversion happens before the unitless/zero/NaN/inf guard")
     # the prefix power: round(log10(|m|) / exponent / 3) * 3 with m the magnitude in the unprefixed unit, rounded down
     # for a positive exponent and up for a negative one - whatever the spelling (if/else, conditional expression, ...)
-    from .. import shape
-    logs = [c for c in walk_local(f.node) if isinstance(c, ast.Call) and norm(c.func) in ("math.log10", "log10") and c.args and "abs(" in norm(c.args[0])]
+    logs = [c for c in walk_local(fn) if isinstance(c, ast.Call) and norm(c.func) in ("math.log10", "log10") and c.args and any(isinstance(x, ast.Call) and norm(x.func) == "abs" for x in ast.walk(c.args[0]))]
     ck.check(len(logs) >= 1, "G-PROV", "to_compact|two-power-formulas", f.loc(), "log10(|magnitude|) formula present", "no log10(abs(magnitude)) formula found in to_compact")
-    positive = lambda a_: isinstance(a_, ast.Compare) and len(a_.ops) == 1 and isinstance(a_.ops[0], ast.Gt) and norm(a_) == "unit_power > 0"
+    exponents = []          # the expressions used as `exponent` in the formulas
     for lg in logs:
         roots = defs.roots(lg.args[0])
-        ok = any(r.startswith("q_base") for r in roots) and not any(r in ("qm", "quantity.magnitude") or r.startswith("quantity.magnitude") for r in roots)
-        ck.check(ok, "G-PROV", f"to_compact|prefix-from-converted-magnitude|L{lg.lineno - f.node.lineno}", f.loc(lg), "the prefix is chosen from the magnitude in the unprefixed unit",
-                 f"`{norm(lg)}`: the magnitude used to choose the prefix derives from {sorted(r for r in roots if 'magnitude' in r or r == 'qm')}, not from the quantity converted to the unprefixed unit (already-prefixed inputs get the wrong prefix)")
+        of_input = sorted(r for r in roots for m in INPUT_MAGNITUDE if r == m or r.startswith(m + "."))
+        ok = "call:to" in roots and not of_input
+        ck.check(ok, "G-PROV", f"to_compact|prefix-from-converted-magnitude|L{lg.lineno - fn.lineno}", f.loc(lg), "the prefix is chosen from the magnitude in the unprefixed unit",
+                 f"`{norm(lg)}`: the magnitude used to choose the prefix derives from {of_input or sorted(r for r in roots if 'magnitude' in r)}, not from the quantity converted to the unprefixed unit (already-prefixed inputs get the wrong prefix)")
         # the enclosing rounding call and formula
         call = getattr(lg, "_parent", None)
         while call is not None and not (isinstance(call, ast.Call) and call is not lg and any(lg in ast.walk(a_) for a_ in call.args)):
             call = getattr(call, "_parent", None)
-        ck.check(call is not None and "/ float(unit_power) / 3" in norm(call) and isinstance(getattr(call, "_parent", None), ast.BinOp) and norm(call._parent).endswith("* 3"), "G-PROV", f"to_compact|steps-of-three|L{lg.lineno - f.node.lineno}", f.loc(lg),
-                 "round(log10(|m|) / exponent / 3) * 3", f"`{norm(getattr(call, '_parent', call)) if call is not None else norm(lg)}` is not round(log10(|m|)/exponent/3)*3")
+        formula = getattr(call, "_parent", None) if call is not None else None
+        m3 = shape.match("_L / float(_E) / 3", call.args[0]) if call is not None and len(call.args) == 1 else None
+        steps = m3 is not None and m3["_L"] == norm(lg) and isinstance(formula, ast.BinOp) and isinstance(formula.op, ast.Mult) and norm(formula.right) == "3" and formula.left is call
+        ck.check(steps, "G-PROV", f"to_compact|steps-of-three|L{lg.lineno - fn.lineno}", f.loc(lg),
+                 "round(log10(|m|) / exponent / 3) * 3", f"`{norm(formula if formula is not None else (call if call is not None else lg))}` is not round(log10(|m|)/exponent/3)*3")
         if call is None:
             continue
+        E = m3["_E"] if m3 is not None else next((norm(x.args[0]) for a_ in call.args for x in ast.walk(a_) if isinstance(x, ast.Call) and norm(x.func) == "float" and len(x.args) == 1), None)
+        if steps:
+            exponents.append(call.args[0].left.right.args[0])
+
+        def positive(a_, E=E):
+            mm = shape.match("_E > 0", a_) or shape.match("0 < _E", a_)
+            return E is not None and mm is not None and mm["_E"] == E
         fn_ = call.func
         if isinstance(fn_, ast.Name):
-            fn_ = shape.dominating_def(fn_, f.node) or fn_      # one level: keep the condition as written
+            fn_ = shape.dominating_def(fn_, fn) or fn_      # one level: keep the condition as written
         if isinstance(fn_, ast.IfExp):
             pos_, truth = next(iter(shape.conjuncts(fn_.test, "t")), (None, None))
             okr = pos_ is not None and positive(pos_) and ((truth and norm(fn_.body) == "math.floor" and norm(fn_.orelse) == "math.ceil") or (not truth and norm(fn_.body) == "math.ceil" and norm(fn_.orelse) == "math.floor"))
         else:
             nm = norm(fn_)
-            okr = nm in ("math.floor", "math.ceil") and shape.holds_at(call, f.node, positive, nm == "math.floor")
-        ck.check(okr, "G-PROV", f"to_compact|floor-for-positive-ceil-for-negative|L{lg.lineno - f.node.lineno}", f.loc(call), "floor for positive exponents, ceil for negative",
-                 f"`{norm(call.func)}` is applied on the wrong side of `unit_power > 0`: the power must be rounded down for a positive exponent and up for a negative one")
-    ren = [c for c in walk_local(f.node) if isinstance(c, ast.Call) and call_name(c) == "rename"]
-    newname = ren[0].args[1] if ren else None
-    if isinstance(newname, ast.Name):
-        newname = defs.single(newname.id) or newname
-    ok = len(ren) == 1 and norm(ren[0].func.value) == "q_base._units" and norm(ren[0].args[0]) == "unit_str" and isinstance(newname, ast.BinOp) and isinstance(newname.op, ast.Add) and norm(newname.right) == "unit_str"
+            okr = nm in ("math.floor", "math.ceil") and shape.holds_at(call, fn, positive, nm == "math.floor")
+        ck.check(okr, "G-PROV", f"to_compact|floor-for-positive-ceil-for-negative|L{lg.lineno - fn.lineno}", f.loc(call), "floor for positive exponents, ceil for negative",
+                 f"`{norm(call.func)}` is applied on the wrong side of `{E or 'exponent'} > 0`: the power must be rounded down for a positive exponent and up for a negative one")
+    # the units change only by renaming one entry of the converted quantity's units to <prefix> + <that entry>; the
+    # exponent used in the formula belongs to the same entry
+    ren = [c for c in walk_local(fn) if isinstance(c, ast.Call) and call_name(c) == "rename" and isinstance(c.func, ast.Attribute)]
+    ok, prefix = len(ren) == 1 and len(ren[0].args) == 2, None
+    if ok:
+        old, new = ren[0].args
+        newv = shape.unalias(new, fn)
+        ok = _is("quantity.to(_U)._units", ren[0].func.value, fn) and isinstance(newv, ast.BinOp) and isinstance(newv.op, ast.Add) and shape.rnorm(newv.right, fn) == shape.rnorm(old, fn)
+        if ok:
+            prefix = shape.unalias(newv.left, fn)
+            entry = lambda e: {r for r in defs.roots(e) if not r.startswith("const:")}
+            ok = all(entry(x) == entry(old) for x in exponents)
     ck.check(ok, "G-PROV", "to_compact|only-one-unit-renamed-with-prefix", f.loc(), "units change only by prefixing one entry", "to_compact no longer changes the units only by renaming one entry to prefix + unit")
-    # prefix lookup, by role: I = bisect_left(P, power); I clamped to -1 when I >= len(B); the prefix is B[I]; P and B
-    # are the key and value columns of the same sorted table
-    from .. import shape as _shp
+    # prefix lookup, by role: I = bisect_left(P, power) with power the value of the formula; I clamped to -1 where
+    # I >= len(B); the prefix is B[I]; P and B are the key and value columns of the same table
     okl = False
-    for a_ in [a_ for a_ in walk_local(f.node) if isinstance(a_, ast.Assign) and isinstance(a_.targets[0], ast.Name) and isinstance(a_.value, ast.Call) and call_name(a_.value) == "bisect_left" and len(a_.value.args) == 2]:
-        I, P = a_.targets[0].id, a_.value.args[0]
-        for t_ in [t_ for t_ in walk_local(f.node) if isinstance(t_, ast.If)]:
-            for at, _edge in _shp.conjuncts(t_.test):
-                if _edge is not True:
-                    continue
-                mm = _shp.match(f"{I} >= len(_B)", at) or _shp.match(f"len(_B) <= {I}", at)
-                if mm is None:
-                    continue
-                B = mm["_B"]
-                clamp = any(isinstance(x, ast.Assign) and norm(x.targets[0]) == I and norm(x.value) == "-1" for st_ in t_.body for x in ast.walk(st_))
-                read = any(isinstance(x, ast.Subscript) and norm(x.value) == B and norm(x.slice) == I for x in walk_local(f.node))
-                dp, db = _shp.unalias(P, f.node), _shp.unalias(ast.Name(id=B, ctx=ast.Load()), f.node)
-                defs15 = defs_of(f)
-                vp = [v for v, k, s_ in defs15.defs.get(norm(P), []) if v is not None]
-                vb = [v for v, k, s_ in defs15.defs.get(B, []) if v is not None]
-                same = bool(vp) and bool(vb) and isinstance(vp[0], ast.ListComp) and isinstance(vb[0], ast.ListComp) and norm(vp[0].generators[0].iter) == norm(vb[0].generators[0].iter)
-                okl = okl or (clamp and read and same)
+    for a_ in [a_ for a_ in walk_local(fn) if isinstance(a_, ast.Assign) and isinstance(a_.targets[0], ast.Name) and isinstance(a_.value, ast.Call) and call_name(a_.value) == "bisect_left" and len(a_.value.args) == 2]:
+        I, (P, power) = a_.targets[0].id, a_.value.args
+        for sub in [x for x in walk_local(fn) if isinstance(x, ast.Subscript) and isinstance(x.ctx, ast.Load) and norm(x.slice) == I]:
+            B = norm(sub.value)
+            beyond = lambda at: shape.match(f"{I} >= len({B})", at) is not None or shape.match(f"len({B}) <= {I}", at) is not None
+            within = lambda at: shape.match(f"{I} < len({B})", at) is not None or shape.match(f"len({B}) > {I}", at) is not None
+            clamp = any(isinstance(x, ast.Assign) and norm(x.targets[0]) == I and norm(x.value) == "-1" and (shape.holds_at(x, fn, beyond, True) or shape.holds_at(x, fn, within, False)) for x in walk_local(fn))
+            (pe, pf), (be, bf) = _origin(f, P, fn), _origin(f, sub.value, fn)
+            cp, cb = _column(pe, pf), _column(be, bf)
+            same = pf is bf and cp is not None and cb is not None and cp[0] == cb[0] and (cp[1], cb[1]) == (0, 1)
+            used = prefix is None or norm(prefix) == norm(sub)
+            okl = okl or (clamp and same and used and "call:log10" in defs.roots(power))
     ck.check(okl, "G-PROV", "to_compact|prefix-lookup", f.loc(), "prefix looked up by bisect, clamped", "the prefix lookup by bisect/clamp changed")
-    inf = [c for c in walk_local(f.node) if isinstance(c, ast.Call) and call_name(c) == "infer_base_unit" and c.args]
+    inf = [c for c in walk_local(fn) if isinstance(c, ast.Call) and call_name(c) == "infer_base_unit" and c.args]
     srcs = set()
     for c in inf:
-        x = shape.resolve(c.args[0], f.node)
+        x = shape.resolve(c.args[0], fn)
         srcs |= {norm(x.body), norm(x.orelse)} if isinstance(x, ast.IfExp) else {norm(x)}
-    tos = [c for c in walk_local(f.node) if isinstance(c, ast.Call) and call_name(c) == "to" and norm(c.func.value) == "quantity" and c.args and "call:infer_base_unit" in defs.roots(c.args[0])]
+    tos = [c for c in conv if c.args and "call:infer_base_unit" in defs.roots(c.args[0])]
     ck.check(bool(inf) and srcs == {"quantity", "quantity.__class__(1, unit)"} and all("registry=quantity._REGISTRY" in norm(c) for c in inf) and len(tos) >= 1, "G-PROV", "to_compact|unprefixed-base", f.loc(), "converted to the unprefixed unit (of the quantity or of the requested unit) first",
              f"to_compact no longer converts to the unprefixed unit inferred from the quantity / the requested unit first (sources {sorted(srcs)})")
 
+
+def _exponent_roles(fi):
+    """Classifier for find_simple: expression -> (whose, part) with whose in {'s' (the quantity), 'p' (a preferred unit)}
+    and part in {'head', 'tail'}, or None.  The exponent lists are recognised by what they are built from
+    (quantity.dimensionality / the dimensionality of an element of preferred_units), head and tail by the starred
+    destructuring `H, *T = exponents`; an element of T is `T[i]`, or a variable ranging over T (directly or through the
+    matching position of a zip)."""
+    fn = fi.node
+    defs = defs_of(fi)
+
+    def unit_var(e):
+        """a variable ranging over preferred_units"""
+        return isinstance(e, ast.Name) and any(kind.startswith("iter") and norm(v) == "preferred_units" for v, kind, st in defs.defs.get(e.id, []))
+
+    def whose(e):
+        """'s' / 'p': the exponents are read from quantity.dimensionality / from <element of preferred_units>.dimensionality"""
+        owners = {("s" if norm(x.value) == "quantity" else ("p" if unit_var(x.value) else "?")) for x in ast.walk(shape.resolve(e, fn)) if isinstance(x, ast.Attribute) and x.attr == "dimensionality"}
+        return owners.pop() if len(owners) == 1 and "?" not in owners else None
+    heads, tails = {}, {}
+    for a_ in walk_local(fn):
+        if isinstance(a_, ast.Assign) and len(a_.targets) == 1 and isinstance(a_.targets[0], (ast.Tuple, ast.List)):
+            el = a_.targets[0].elts
+            if len(el) == 2 and isinstance(el[0], ast.Name) and isinstance(el[1], ast.Starred) and isinstance(el[1].value, ast.Name) and whose(a_.value):
+                heads[el[0].id], tails[el[1].value.id] = whose(a_.value), whose(a_.value)
+    elements = {}           # variable ranging over a tail -> whose
+    for g in [x for x in ast.walk(fn) if isinstance(x, (ast.comprehension, ast.For))]:
+        its, tgs = [g.iter], [g.target]
+        if isinstance(g.iter, ast.Call) and norm(g.iter.func) == "zip" and isinstance(g.target, ast.Tuple) and len(g.target.elts) == len(g.iter.args):
+            its, tgs = list(g.iter.args), list(g.target.elts)
+        for it, tg in zip(its, tgs):
+            if isinstance(it, ast.Name) and it.id in tails and isinstance(tg, ast.Name):
+                elements[tg.id] = tails[it.id]
+
+    def role(e):
+        if isinstance(e, ast.Name):
+            if e.id in heads:
+                return heads[e.id], "head"
+            if e.id in elements:
+                return elements[e.id], "tail"
+        if isinstance(e, ast.Subscript) and isinstance(e.value, ast.Name) and e.value.id in tails and not isinstance(e.slice, ast.Slice):
+            return tails[e.value.id], "tail"
+        return None
+    return role, unit_var
 
 
 def preferred_simple_match_rule(ck, ix):
@@ -126,30 +246,37 @@ def preferred_simple_match_rule(ck, ix):
     ck.floor("G-PROV", len(fs), 1, "find_simple")
     for f in fs:
         ck.analysed(f)
-        cmps = [c for c in walk_local(f.node) if isinstance(c, ast.Compare) and len(c.ops) == 1 and isinstance(c.ops[0], ast.Eq)
-                and "exps" in norm(c.left) and "exps" in norm(c.comparators[0]) and "[" in norm(c)]
+        role, unit_var = _exponent_roles(f)
+        mixes = lambda e: len({role(x)[0] for x in ast.walk(e) if role(x)}) == 2      # involves an exponent of both
+        cmps = [c for c in walk_local(f.node) if isinstance(c, ast.Compare) and len(c.ops) == 1 and isinstance(c.ops[0], ast.Eq) and mixes(c) and all(any(role(x) for x in ast.walk(sd)) for sd in (c.left, c.comparators[0]))]
         ck.check(len(cmps) == 1, "G-PROV", "find_simple|proportionality-test-present", f.loc(), "one proportionality test", f"{len(cmps)} exponent proportionality tests found")
         for c in cmps:
             sides = [c.left, c.comparators[0]]
-            ok = True
-            why = ""
+            ok, why, got = True, "", []
             for sd in sides:
                 if not (isinstance(sd, ast.BinOp) and isinstance(sd.op, ast.Mult)):
                     ok, why = False, f"`{norm(sd)}` is not a product"
                     break
-                if any(isinstance(x, ast.BinOp) and not isinstance(x.op, ast.Mult) for x in ast.walk(sd)):
+                if any(isinstance(x, (ast.BinOp, ast.UnaryOp, ast.Call)) and x is not sd for x in ast.walk(sd)):
                     ok, why = False, f"`{norm(sd)}` contains an operator other than *"
                     break
-                names = sorted(n.id for n in ast.walk(sd) if isinstance(n, ast.Name) and "exps" in n.id)
-                who = sorted(n[0] for n in names)            # 's' / 'p'
-                part = sorted("head" if "head" in n else "tail" for n in names)
-                if who != ["p", "s"] or part != ["head", "tail"]:
+                rs = sorted(r for r in (role(sd.left), role(sd.right)) if r)
+                if len(rs) != 2 or sorted(r[0] for r in rs) != ["p", "s"] or sorted(r[1] for r in rs) != ["head", "tail"]:
                     ok, why = False, f"`{norm(sd)}` does not multiply one exponent of the quantity with one of the unit (head x tail)"
                     break
+                got.append(rs)
+            if ok and got[0] == got[1]:
+                ok, why = False, "both sides are the same product"
+            tl = [x for sd in sides for x in (sd.left, sd.right) if ok and role(x)[1] == "tail" and isinstance(x, ast.Subscript)]
+            if ok and len({norm(x.slice) for x in tl}) > 1:
+                ok, why = False, "the two tails are not read at the same position"
             ck.check(ok, "G-PROV", "find_simple|proportional-by-cross-multiplication", f.loc(c), "s_tail[i] * p_head == p_tail[i] * s_head",
                      f"`{norm(c)}`: {why}; exponents that are not proportional are accepted and to_preferred converts to a unit of another dimension (DimensionalityError), proportional ones such as (3, 9) vs (1, 3) are rejected")
-        pw = [b for b in walk_local(f.node) if isinstance(b, ast.BinOp) and isinstance(b.op, ast.Pow) and "preferred_unit" in norm(b.left)]
-        ck.check(len(pw) == 1 and norm(pw[0].right) in ("s_exps_head / p_exps_head",), "G-PROV", "find_simple|unit-raised-to-exponent-ratio", f.loc(), "preferred_unit ** (s_head / p_head)", "the matched unit is no longer raised to the ratio of the leading exponents")
+        # the unit that is returned: an element of preferred_units raised to s_head / p_head
+        pw = [b for b in walk_local(f.node) if isinstance(b, ast.BinOp) and isinstance(b.op, ast.Pow) and unit_var(b.left)]
+        okp = len(pw) == 1 and isinstance(pw[0].right, ast.BinOp) and isinstance(pw[0].right.op, ast.Div) and role(pw[0].right.left) == ("s", "head") and role(pw[0].right.right) == ("p", "head")
+        ck.check(okp, "G-PROV", "find_simple|unit-raised-to-exponent-ratio", f.loc(), "preferred_unit ** (s_head / p_head)", "the matched unit is no longer raised to the ratio of the leading exponents")
+
 
 def run(ck, ix, tier):
     ck.rule("G-TWIN", "functional and in-place helper have the same branches with to <-> ito")
@@ -160,6 +287,7 @@ def run(ck, ix, tier):
         cfg = cfg_of(f)
         for r in live(cfg, return_nodes(cfg)):
             v = cfg.nodes[r].ast.value
+            v = shape.resolve(v, f.node) if v is not None else None
             s = norm(v) if v is not None else "None"
             ok = s == "quantity" or (isinstance(v, ast.Call) and call_name(v) == "to" and norm(v.func.value) == "quantity" and len(v.args) == 1)
             ck.check(ok, "G-TAG", f"{q}|exit-is-input-or-conversion|{s[:40]}", f.loc(cfg.nodes[r].ast), "returns the input or quantity.to(U)",
@@ -170,6 +298,7 @@ def run(ck, ix, tier):
         cfg = cfg_of(f)
         for r in live(cfg, return_nodes(cfg)):
             v = cfg.nodes[r].ast.value
+            v = shape.resolve(v, f.node) if v is not None else None
             s = norm(v) if v is not None else "None"
             ok = s == "None" or (isinstance(v, ast.Call) and call_name(v) == "ito" and norm(v.func.value) == "quantity" and len(v.args) == 1)
             ck.check(ok, "G-TAG", f"{q}|exit-is-none-or-inplace-conversion|{s[:40]}", f.loc(cfg.nodes[r].ast), "returns None or quantity.ito(U)", f"`return {s}` in an in-place helper is not quantity.ito(<units>)")
@@ -190,10 +319,9 @@ def run(ck, ix, tier):
     # functional / in-place twins, compared by what they do (target, conversion, what is built or written), with
     # extracted private helpers looked through: both forms convert to the same target T, the functional form returns
     # self.__class__(conv_not_inplace(T), T), the in-place form writes self._magnitude = conv(T) and self._units = T
-    from .. import shape
 
     def summary(fi, inplace):
-        fn = shape.inline_helpers(ix, fi)
+        fn = shape.inline_helpers(ix, fi, skip=("_convert_magnitude", "_convert_magnitude_not_inplace"))      # the primitives are anchors: never looked through
         conv = [c for c in walk_local(fn) if isinstance(c, ast.Call) and call_name(c) in ("_convert_magnitude", "_convert_magnitude_not_inplace") and c.args]
         out = {"conv": sorted({call_name(c) for c in conv}), "target": sorted({shape.rnorm(c.args[0], fn) for c in conv}), "extra": sorted({norm(ast.Tuple(elts=list(c.args[1:]) + [k.value for k in c.keywords], ctx=ast.Load())) for c in conv})}
         if inplace:
@@ -225,7 +353,8 @@ def run(ck, ix, tier):
                 ck.check(len(cs) == 1 and call_name(cs[0]) == reg and norm(cs[0].args[0]) == "self._units", "G-TWIN", f"{f.qualname.split('::')[1]}|target-from-{reg}", f.loc(),
                          f"target from {reg}(self._units)", f"{f.qualname.split('::')[1]} takes its target from `{norm(cs[0]) if cs else '?'}`")
     m_as = ix.func(PQ, "PlainQuantity.m_as")
-    ck.check("return self.to(units).magnitude" in norm(m_as.node), "G-TAG", "PlainQuantity.m_as|magnitude-of-conversion", m_as.loc(), "m_as = to(units).magnitude", "m_as is no longer the magnitude of to(units)")
+    m_rets = shape.returns_of(m_as.node)
+    ck.check(bool(m_rets) and all(_is("self.to(units).magnitude", r.value, m_as.node) for r in m_rets), "G-TAG", "PlainQuantity.m_as|magnitude-of-conversion", m_as.loc(), "m_as = to(units).magnitude", "m_as is no longer the magnitude of to(units)")
 
     # ------------------------------------------------------------ ireduce_dimensions
     f = ix.func(PQ, "ireduce_dimensions")
@@ -233,14 +362,24 @@ def run(ck, ix, tier):
     w = [g for g in f.module.all_functions if g.parent is f]
     if not w:
         raise AnalysisError("ireduce_dimensions wrapper not found")
-    src = norm(w[0].node)
-    ck.check("result = f(self, *args, **kwargs)" in src and "return result" in src, "G-OWN", "ireduce_dimensions|wraps-result", f.loc(), "wraps the result of the operation", "ireduce_dimensions no longer returns the result of the wrapped operation")
+    # by role: R = <op>(self, *args, **kwargs) is the value of the wrapped operation (<op> = the decorator's parameter);
+    # the wrapper returns R, applies each in-place helper to R under the registry flag of R, and to nothing else
+    from .C16 import is_result_of_wrapped_operation, wrapped_operation_param
+    wi, wn = w[0], w[0].node
+    op = wrapped_operation_param(wi)
+    if op is None:
+        raise AnalysisError("ireduce_dimensions: the wrapped operation (parameter of the decorator) not found")
+    is_res = lambda e: is_result_of_wrapped_operation(wi, e)
+    forwarded = f"{op}({wn.args.args[0].arg if wn.args.args else 'self'}, *{wn.args.vararg.arg if wn.args.vararg else '_none'}, **{wn.args.kwarg.arg if wn.args.kwarg else '_none'})"
+    rets = shape.returns_of(wn)
+    ck.check(bool(rets) and all(is_res(r.value) and shape.match(forwarded, shape.unalias(r.value, wn)) is not None for r in rets), "G-OWN", "ireduce_dimensions|wraps-result", f.loc(), "wraps the result of the operation", "ireduce_dimensions no longer returns the result of the wrapped operation")
     for flag, helper in (("autoconvert_to_preferred", "ito_preferred"), ("auto_reduce_dimensions", "ito_reduced_units")):
-        tests = [t for t in walk_local(w[0].node) if isinstance(t, ast.If) and norm(t.test) == f"result._REGISTRY.{flag}"]
-        ok = bool(tests) and all(any(isinstance(c, ast.Call) and call_name(c) == helper and norm(c.func.value) == "result" for c in ast.walk(t)) for t in tests)
+        flag_of_result = lambda a_, flag=flag: isinstance(a_, ast.Attribute) and a_.attr == flag and isinstance(a_.value, ast.Attribute) and a_.value.attr == "_REGISTRY" and is_res(a_.value.value)
+        calls = [c for c in walk_local(wn) if isinstance(c, ast.Call) and isinstance(c.func, ast.Attribute) and c.func.attr == helper]
+        ok = bool(calls) and all(is_res(c.func.value) and shape.holds_at(c, wn, flag_of_result, True) for c in calls)
         ck.check(ok, "G-OWN", f"ireduce_dimensions|{flag}-applies-{helper}-to-result", f.loc(), f"{helper} applied to the result under {flag}", f"under {flag} the helper {helper} is not applied to the *result* (operands would be rewritten or the option ignored)")
-    for c in walk_local(w[0].node):
-        if isinstance(c, ast.Call) and call_name(c).startswith("ito") and norm(c.func.value) != "result":
+    for c in walk_local(wn):
+        if isinstance(c, ast.Call) and isinstance(c.func, ast.Attribute) and call_name(c).startswith("ito") and not is_res(c.func.value):
             ck.fail("G-OWN", f"ireduce_dimensions|rewrites-operand|{norm(c)[:40]}", f.loc(c), f"`{norm(c)}` rewrites an operand of the operation in place")
 
     to_compact_rule(ck, ix)
@@ -248,7 +387,6 @@ def run(ck, ix, tier):
     # ------------------------------------------------------------ _get_reduced_units
     f = ix.func(QTO, "_get_reduced_units")
     ck.analysed(f)
-    from .. import shape
     outer = [l for l in f.node.body if isinstance(l, ast.For) and any(isinstance(x, ast.Name) and x.id == "units" for x in ast.walk(l.iter))]
     if not outer:
         raise AnalysisError("_get_reduced_units: outer loop over the units not found")
@@ -271,7 +409,7 @@ def run(ck, ix, tier):
     if okm:
         div = red[0].value.func.value.args[1]
         ev, pv = shape.resolve(div.left, f.node), shape.resolve(div.right, f.node)
-        okm = norm(ev) in (f"units[{u1}]",) or norm(div.left) == "exp"
+        okm = norm(ev) in (f"units[{u1}]",) or (isinstance(div.left, ast.Name) and isinstance(o.target, ast.Tuple) and len(o.target.elts) == 2 and norm(o.target.elts[1]) == div.left.id and norm(o.iter) == "units.items()")   # the value variable of the loop over units.items()
         okm = okm and isinstance(pv, ast.Call) and call_name(pv) == "_get_dimensionality_ratio" and [norm(x) for x in pv.args] == [u1, u2]
     ck.check(bool(okm), "G-PROV", "_get_reduced_units|merge-by-exponent-over-ratio", f.loc(red[0]) if red else f.loc(), "unit1**exp becomes unit2**(exp/ratio(unit1, unit2))", f"the merge step is `{norm(red[0].value) if red else '?'}` (expected units.add(unit2, units[unit1] / ratio(unit1, unit2)).remove([unit1]))")
     rc = [c for c in walk_local(f.node) if isinstance(c, ast.Call) and call_name(c) == "_get_dimensionality_ratio"]
@@ -322,24 +460,36 @@ def run(ck, ix, tier):
     return EXPLANATION
 
 
-def _twin_norm(fn, verb, method=False):
-    """Normalised statement list of a helper with the in-place vocabulary mapped to the functional one."""
-    out = []
+def _canonical_locals(fn):
+    """Copy of function `fn` in which every local variable (not a parameter) is renamed to L0, L1, ... in order of first
+    binding, so that two functions that differ only in the names of their locals have the same text."""
+    fn = ast.parse(ast.unparse(fn)).body[0]
+    a = fn.args
+    params = {x.arg for x in a.posonlyargs + a.args + a.kwonlyargs} | ({a.vararg.arg} if a.vararg else set()) | ({a.kwarg.arg} if a.kwarg else set())
+    order = []
     for st in fn.body:
+        for x in ast.walk(st):
+            if isinstance(x, ast.Name) and isinstance(x.ctx, ast.Store) and x.id not in params and x.id not in order:
+                order.append(x.id)
+    order.sort(key=lambda nm: min((x.lineno, x.col_offset) for st in fn.body for x in ast.walk(st) if isinstance(x, ast.Name) and x.id == nm and isinstance(x.ctx, ast.Store)))
+    ren = {nm: f"L{i}" for i, nm in enumerate(order)}
+    for x in ast.walk(fn):
+        if isinstance(x, ast.Name) and x.id in ren:
+            x.id = ren[x.id]
+    return fn
+
+
+def _twin_norm(fn, verb, method=False):
+    """Normalised statement list of a helper with the in-place vocabulary mapped to the functional one (locals renamed
+    canonically: the twins need not call their temporaries the same)."""
+    out = []
+    for st in _canonical_locals(fn).body:
         if isinstance(st, ast.Expr) and isinstance(st.value, ast.Constant):
             continue
         s = norm(st)
         if verb == "ito":
             s = s.replace("quantity.ito(", "quantity.to(").replace("return None", "return quantity")
-            s = s.replace("self._convert_magnitude(", "self._convert_magnitude_not_inplace(")
         out.append(s)
-    if method:
-        # functional: magnitude = conv(other); return self.__class__(magnitude, other)   in-place: self._magnitude = conv(other); self._units = other; return None
-        txt = "\n".join(out)
-        txt = txt.replace("self._magnitude = ", "magnitude = ")
-        if verb == "ito":
-            txt = txt.replace("self._units = other\nreturn quantity", "return self.__class__(magnitude, other)").replace("self._units = other\nreturn None", "return self.__class__(magnitude, other)")
-        return txt.split("\n")
     return out
 
 
